@@ -284,5 +284,18 @@ func TxnFamily(thorough bool) []string {
 			}
 		}
 	}
+	// three aborted transactions in one answer (beyond the length bound above in the quick tier): one after the other, and a
+	// long one overlapping two short ones; every order of the index (6), read-committed
+	for _, spec := range []string{"dA,aA,dB,aB,dA,aA", "dA,dB,aB,dB,aB,aA", "dA,dB,aB,dN,dB,aB,aA"} {
+		for _, ver := range []string{"0.11.0.0", "2.1.0"} {
+			for _, bpf := range []int{0, 2} {
+				for _, start := range []int{0, 1} {
+					for abo := 0; abo < 6; abo++ {
+						out = append(out, fmt.Sprintf("cons?ver=%s&txn=%s&iso=rc&bpf=%d&start=%d&abo=%d", ver, spec, bpf, start, abo))
+					}
+				}
+			}
+		}
+	}
 	return out
 }
